@@ -108,7 +108,14 @@ def make_data(dtype, shape, fill, seed=0):
 class Interp:
     """Applies op programs to a nixio file and keeps the skeleton model."""
 
-    def __init__(self, path, clock=None, auto_ts=True, compression=None):
+    def __init__(self, path, clock=None, auto_ts=True, compression=None, policy="fresh"):
+        # handle policy: "fresh" = obtain a new handle for every op (by the op's 'how');
+        # "cached" = one retained handle per entity for the whole session (as a long-lived program
+        # would); "two" = two retained handles per entity used alternately.  The property says the
+        # state is independent of how many handles to the same entity were used.
+        self.policy = policy
+        self._retained = {}
+        self._turn = {}
         import nixio
         self.nixio = nixio
         self.path = path
@@ -179,6 +186,20 @@ class Interp:
         """obtain a handle to ``ent`` by the requested strategy (parents always by name)"""
         if ent is self.root:
             return self.f
+        if self.policy != "fresh" and how != "_raw":
+            key = ent.serial
+            slots = self._retained.setdefault(key, [])
+            want = 1 if self.policy == "cached" else 2
+            if len(slots) < want:
+                if not slots and ent.handle is not None:
+                    slots.append(ent.handle)
+                else:
+                    slots.append(self.handle(ent, "_raw"))
+            turn = self._turn.get(key, 0)
+            self._turn[key] = turn + 1
+            return slots[turn % len(slots)]
+        if how == "_raw":
+            how = "name"
         if how == "cached" and ent.handle is not None and self.cached_ok:
             return ent.handle
         cont = self.container_of(ent)
@@ -200,6 +221,7 @@ class Interp:
         self.f.close()
         for e in self.ents:
             e.handle = None
+        self._retained = {}
         nixio = self.nixio
         m = nixio.FileMode.ReadWrite if mode == "a" else nixio.FileMode.ReadOnly
         self.f = nixio.File.open(self.path, m, auto_update_timestamps=self.auto_ts)
